@@ -2,6 +2,10 @@ package main
 
 import (
 	"crypto/sha256"
+	"hash/adler32"
+	"hash/crc32"
+	"hash/fnv"
+	"strconv"
 	"strings"
 
 	"github.com/islishude/bip39"
@@ -82,6 +86,54 @@ func runSweeps(tier string, seed int64, langs []int, perPair int) {
 				idx := indicesOf(ent)
 				recSweep(idx[:len(idx)-1], lang)
 			}
+		}
+	}
+}
+
+// runFingerprintCollisions: tokens that are no list words but have the same 32-bit fingerprint (FNV-1a, FNV-1,
+// CRC-32, Adler-32 - the ones at hand in the standard library) as the list word in whose place they stand in an
+// otherwise valid sentence: a word is its spelling, not a hash of it
+func runFingerprintCollisions(seed int64) {
+	if strconv.IntSize == 32 || buildVariant != "" {
+		return // (searching for the colliding tokens takes a few seconds: done in the main pass only)
+	}
+	r := newRng(seed, "fingerprint")
+	hashes := []func(string) uint32{
+		func(s string) uint32 { h := fnv.New32a(); h.Write([]byte(s)); return h.Sum32() },
+		func(s string) uint32 { h := fnv.New32(); h.Write([]byte(s)); return h.Sum32() },
+		func(s string) uint32 { return crc32.ChecksumIEEE([]byte(s)) },
+		func(s string) uint32 { return adler32.Checksum([]byte(s)) },
+	}
+	for _, lang := range []int{2, int(r.intn(10))} {
+		for hi, hf := range hashes {
+			maybeCut()
+			byHash := map[uint32]int{}
+			for ix, w := range goldenWords[lang] {
+				byHash[hf(w)] = ix
+			}
+			buf := []byte("aaaaaaaa")
+			found, at := "", -1
+			for t := 0; t < 30000000 && found == ""; t++ { // 2^32 / 2048 = about two million tries expected
+				for i := 0; i < 8; i++ {
+					buf[i]++
+					if buf[i] <= 'z' {
+						break
+					}
+					buf[i] = 'a'
+				}
+				if ix, ok := byHash[hf(string(buf))]; ok && string(buf) != goldenWords[lang][ix] {
+					found, at = string(buf), ix
+				}
+			}
+			if found == "" {
+				continue
+			}
+			// a valid sentence whose first word is the list word the token collides with
+			ent := r.bytes(16)
+			ent[0], ent[1] = byte(at>>3), byte(at&7)<<5|ent[1]&0x1f
+			ws := strings.Split(sentence(indicesOf(ent), lang, " "), " ")
+			ws[0] = found
+			recCheck(strings.Join(ws, " "), int64(lang), Event{"cls": "fingerprint", "k": hi})
 		}
 	}
 }
